@@ -36,7 +36,7 @@ def alpha_of(kind, tier):
     if kind == "objb":
         return [None, False, True]
     if kind == "objs":
-        return [None, "None", "a"]  # the text 'None' is a value, not a missing value
+        return [None, "None", "a", ""]  # the texts 'None' and '' are values here, not missing values
     if kind == "i8w":
         return [0, -3000000000, 5, 2147483648, -1]  # both sides of the int32 range next to small values
     if kind == "strz":
